@@ -8,6 +8,7 @@ import (
 	"fmt"
 	"io"
 	"os"
+	"runtime"
 	"path/filepath"
 	"strings"
 	"sync"
@@ -735,6 +736,137 @@ func c06SharedCheck(c c06Shared) vfResult {
 }
 
 // ---------------------------------------------------------------------------------
+// firstuse: a freshly registered chain of formats is used for the FIRST time by many goroutines
+// at the same instant; every returned value must show its complete hierarchy (nothing built
+// lazily may be observed half-built).
+
+type c06First struct {
+	Depth  int    `json:"depth"`
+	G      int    `json:"goroutines"`
+	Parent string `json:"parent"`
+	Input  vfB    `json:"input"`
+}
+
+func c06FirstCheck(c c06First) vfResult {
+	var r vfResult
+	vfJournal("C06", "firstuse", c)
+	vfTreeSnapshot()
+	defer vfTreeRestore()
+	vfTreeRestore()
+	pred := func(raw []byte, _ uint32) bool { return bytes.Contains(raw, []byte("VF0:")) }
+	parent := c.Parent
+	for i := 0; i < c.Depth; i++ {
+		name := fmt.Sprintf("application/x-verif-first-%d", i)
+		if parent == "" {
+			vfExtendRoot(pred, name, fmt.Sprintf(".vff%d", i))
+		} else if p := Lookup(parent); p != nil {
+			p.Extend(pred, name, fmt.Sprintf(".vff%d", i))
+		}
+		parent = name
+	}
+	input := []byte(c.Input)
+	g := max(2, min(c.G, 64))
+	got := make([]string, g)
+	start := make(chan struct{})
+	var wg sync.WaitGroup
+	for i := 0; i < g; i++ {
+		wg.Add(1)
+		go func(i int) {
+			defer wg.Done()
+			<-start
+			m := Detect(input)
+			got[i] = vfChainStr(m) // walks Parent() up to the root
+		}(i)
+	}
+	close(start)
+	wg.Wait()
+	want := vfChainStr(Detect(input))
+	for i, s := range got {
+		if s != want {
+			r.Err = fmt.Errorf("%d goroutines use a fresh chain of %d formats (under %q) at the same instant: goroutine %d saw the hierarchy %s, the complete one is %s", g, c.Depth, c.Parent, i, s, want)
+			return r
+		}
+	}
+	r.Nontrivial = c.Depth >= 2
+	cb, _ := ejson.Marshal(c)
+	r.Hash = vfHash(cb)
+	return r
+}
+
+// ---------------------------------------------------------------------------------
+// unwind: a detection that is unwound (a registered detector panics and the caller recovers,
+// or the goroutine exits from inside the detector) must leave the registry usable: the calls
+// other goroutines make afterwards - Extend, Lookup, detections - complete.
+
+type c06Unwind struct {
+	Parent string `json:"parent"`
+	Entry  string `json:"entry"`
+	Goexit bool   `json:"goexit"`
+	Limit  uint32 `json:"limit"`
+}
+
+func c06UnwindCheck(c c06Unwind) vfResult {
+	var r vfResult
+	vfJournal("C06", "unwind", c)
+	vfTreeSnapshot()
+	stop := vfWatchdog("C06", "unwind", c, 40*time.Second)
+	defer func() {
+		stop()
+		vfTreeRestore()
+		SetLimit(defaultLimit)
+	}()
+	vfTreeRestore()
+	SetLimit(c.Limit)
+	bad := func(raw []byte, _ uint32) bool {
+		if bytes.Contains(raw, []byte("VFUNWIND")) {
+			if c.Goexit {
+				runtime.Goexit()
+			}
+			panic("verif: detector failure")
+		}
+		return false
+	}
+	if c.Parent == "" {
+		vfExtendRoot(bad, "application/x-verif-unwind", ".vunw")
+	} else if p := Lookup(c.Parent); p != nil {
+		p.Extend(bad, "application/x-verif-unwind", ".vunw")
+	}
+	input := []byte("VFUNWIND plain text\n")
+	if c.Parent == "application/zip" {
+		input = []byte("PK\x03\x04VFUNWIND")
+	}
+	done := make(chan struct{})
+	go func() { // the unwound detection, on a goroutine of its own
+		defer close(done)
+		defer func() { _ = recover() }()
+		switch c.Entry {
+		case "reader":
+			_, _ = DetectReader(bytes.NewReader(input))
+		case "file":
+			_, _ = DetectFile(vfWriteFile("c06u", input, 0))
+		default:
+			_ = Detect(input)
+		}
+	}()
+	<-done
+	// everybody else carries on
+	ok := func(raw []byte, _ uint32) bool { return bytes.HasPrefix(raw, []byte("VFOK")) }
+	vfExtendRoot(ok, "application/x-verif-after-unwind", ".vaft")
+	if l := Lookup("application/x-verif-after-unwind"); l == nil {
+		r.Err = fmt.Errorf("a format registered after an unwound detection is not found by Lookup")
+		return r
+	}
+	if m := Detect([]byte("VFOK and more")); m == nil || m.String() != "application/x-verif-after-unwind" {
+		r.Err = fmt.Errorf("after an unwound detection, Extend + Detect give %s", vfChainStr(m))
+		return r
+	}
+	r.Nontrivial = true
+	cb, _ := ejson.Marshal(c)
+	r.Hash = vfHash(cb)
+	return r
+}
+
+// ---------------------------------------------------------------------------------
 // pipe: the bytes of a reader are produced by a goroutine that first registers a format (and
 // looks one up). DetectReader sits in Read meanwhile; it must not hold anything Extend needs.
 
@@ -861,6 +993,28 @@ func TestVerif_C06(t *testing.T) {
 					x = x[:6000]
 				}
 				return c06Shared{X: x, Limit: rapid.SampledFrom([]uint32{defaultLimit, 0, 512, 100}).Draw(t, "limit"), G: rapid.IntRange(2, 6).Draw(t, "g")}
+			}})
+	}
+	if t.Failed() {
+		return
+	}
+	if vfOnlySub("firstuse") {
+		vfRun(t, vfSub[c06First]{Prop: "C06", Name: "firstuse", Checks: vfN(400, 60000), Check: c06FirstCheck,
+			Gen: func(t *rapid.T) c06First {
+				return c06First{Depth: rapid.IntRange(1, 16).Draw(t, "depth"), G: rapid.SampledFrom([]int{2, 4, 8, 16, 48}).Draw(t, "g"),
+					Parent: rapid.SampledFrom([]string{"", "text/plain", "application/zip", "application/json"}).Draw(t, "parent"),
+					Input:  vfB(rapid.SampledFrom([]string{"VF0: plain text\n", "VF0:{\"a\":1}", "PK\x03\x04VF0:", "{\"VF0:\":1}"}).Draw(t, "input"))}
+			}})
+	}
+	if t.Failed() {
+		return
+	}
+	if vfOnlySub("unwind") {
+		vfRun(t, vfSub[c06Unwind]{Prop: "C06", Name: "unwind", Checks: vfN(300, 30000), Check: c06UnwindCheck,
+			Gen: func(t *rapid.T) c06Unwind {
+				return c06Unwind{Parent: rapid.SampledFrom([]string{"", "text/plain", "application/zip"}).Draw(t, "parent"),
+					Entry: rapid.SampledFrom([]string{"detect", "reader", "file"}).Draw(t, "entry"), Goexit: rapid.IntRange(0, 3).Draw(t, "goexit") == 0,
+					Limit: rapid.SampledFrom([]uint32{defaultLimit, 0, 16}).Draw(t, "limit")}
 			}})
 	}
 	if t.Failed() {
